@@ -1608,7 +1608,8 @@ class Gen(object):
         if self.faults == 'all':
             kinds += ['update_back', 'update_back', 'update_back', 'update_back_ok', 'update_back_pos', 'neg_mark', 'neg_mark', 'pf_sub_back', 'pf_sub_neg',
                       'pf_wd_back', 'pf_wd_neg', 'pf_wd_over', 'pf_txn_back', 'pf_mark_neg', 'pf_mark_back',
-                      'pf_txn_behind_pos', 'pf_txn_behind_pos', 'pf_mark_behind_pos', 'pf_mark_repeat']
+                      'pf_txn_behind_pos', 'pf_txn_behind_pos', 'pf_mark_behind_pos', 'pf_mark_repeat', 'pf_mark_ahead',
+                      'pf_mark_ahead']
         k = rng.choice(kinds)
         amt = rand_amount(rng) + 0.01
         over = lambda x: float(max(x, 0.0)) * rng.choice([1.0, 1.0, 1.0000001, 1.5, 10.0]) + rng.choice([0.001, 0.004, 0.0098, 0.01, 1.0, 1e6])  # noqa
@@ -1719,6 +1720,24 @@ class Gen(object):
                                                          pd.Timedelta(days=2)])))
         nowish = str(max(clock, self.tmax))
         held = [a for a, p in mp.pos.items() if p.net != 0]
+        if k == 'pf_mark_ahead':
+            # a VALID direct portfolio request: one held asset is marked at a time ahead of the broker's clock (the
+            # portfolio's own clock stays); the broker update to an instant before that mark is then refused, and the
+            # other holdings of the portfolio must not have been re-marked on the way
+            cands = [p_ for p_ in pids if sum(1 for q_ in sc.model.ports[p_].pos.values() if q_.net != 0) >= 2]
+            if not cands:
+                return None
+            pid = rng.choice(cands)
+            held = sorted(a_ for a_, q_ in sc.model.ports[pid].pos.items() if q_.net != 0)
+            base = max([self.tmax, b.current_dt] + list(clocks.values()) +
+                       [pos_.current_dt for p_ in pids for pos_ in b.portfolios[p_].pos_handler.positions.values()])
+            ahead = base + pd.Timedelta(hours=rng.choice([1, 2, 30]))
+            between = base + (ahead - base) * rng.choice([0.0, 0.5, 0.999])
+            self.queue.append(['quote', self.quotes(len(sc.cfg['assets']))])
+            self.queue.append(['update', str(between)])
+            self.tmax = ahead + pd.Timedelta(minutes=1)
+            self.queue.append(['update', str(self.tmax)])
+            return ['pf_mark', pid, rng.choice(held), rand_price(rng), str(ahead)]
         if k == 'pf_sub_back':
             return ['pf_sub', pid, earlier, amt]
         if k == 'pf_sub_neg':
